@@ -224,6 +224,26 @@ class Ctx:
             futs = [ex.submit(self.validate, module, f, **kw) for f in files]
             return [f.result() for f in futs]
 
+    def tlapm(self, module, timeout=600, threads=8):
+        """Check the proofs of a module with the TLA+ proof system; returns the number of obligations proved.
+        A failed or timed-out proof is a statement about the specification, never about the code: exit 2."""
+        d = self._specdir()
+        e = dict(self.env)
+        cmd = ["tlapm", "--threads", str(threads), "--cleanfp", module + ".tla"]
+        self.checker_cmds.append(" ".join(cmd))
+        try:
+            r = subprocess.run(cmd, cwd=d, env=e, capture_output=True, text=True, timeout=timeout)
+        except subprocess.TimeoutExpired:
+            raise Undecided("tlapm timed out on " + module)
+        txt = r.stdout + r.stderr
+        m = re.search(r"All (\d+) obligations? proved", txt)
+        shutil.rmtree(os.path.join(d, ".tlacache"), ignore_errors=True)
+        if not m:
+            keep = [l for l in txt.split("\n") if not l.startswith(("Called from", "Raised at"))]
+            raise Undecided("tlapm could not check the proofs of %s:\n%s" % (module, "\n".join(keep)[-1500:]))
+        self.notes.append("tlapm: all %s proof obligations of %s.tla proved" % (m.group(1), module))
+        return int(m.group(1))
+
     def apalache(self, module, inv="Inv", length=0, init="Init", nxt="Next", timeout=600):
         d = self._specdir()
         out = os.path.join(self.scratch, "apalache-" + module)
